@@ -238,7 +238,7 @@ func checkPST(c pstCase) *vk.Failure {
 }
 
 func TestPST(t *testing.T) {
-	vk.Run(t, "pst", vk.Opts{Quick: 500, Thorough: 20000}, func(t *rapid.T) pstCase {
+	vk.Run(t, "pst", vk.Opts{Quick: 500, Thorough: 12000}, func(t *rapid.T) pstCase {
 		return pstCase{
 			N: drawDim(t, "n", 80, 200), PadA: vk.Pad(t, "padA"),
 			Upper:   rapid.Bool().Draw(t, "upper"),
